@@ -25,6 +25,8 @@ main() {
     fi
     prop=$(python3 -c "import json;print(json.load(open('$d/meta.json'))['breaks_property'])" 2>/dev/null)
     tier=quick; [ "$n" = own_racy_noseam ] && tier=thorough
+    # c05l needs the opt-in thread-teardown check (DESIGN 8.5: not part of the registered checks)
+    if [ "$n" = c05l ]; then export VERIF_TEARDOWN_CHECK=1; else unset VERIF_TEARDOWN_CHECK; fi
     if [ "$tier" = thorough ]; then VERIF_RUNS=320 bash "$run" "$d" thorough $prop; else bash "$run" "$d" quick $prop; fi
   done
 }
